@@ -274,21 +274,40 @@ Proof.
   rewrite split_char_app_sep, (split_char_none NLc _ He), (IH Hr). reflexivity.
 Qed.
 
-(* when the base file ends with a new line every sampled input is a line of its own in the iteration's input file *)
-Lemma input_file_lines b0 entries e :
+(* current code: every sampled input is a line of its own in the iteration's input file, whatever the base file *)
+Lemma input_file_lines base entries e :
   forallb (fun e => no_nl (entry_line e)) entries = true -> In e entries ->
-  In (entry_line e) (file_lines (input_file (b0 ++ String NLc "") entries)).
+  In (entry_line e) (file_lines (input_file base entries)).
 Proof.
-  intros H Hin. unfold input_file, file_lines. rewrite app_assoc_s. change (String NLc "" ++ ?x) with (String NLc x).
+  intros H Hin. unfold input_file, file_lines.
   rewrite split_char_app_sep. apply in_or_app. right.
   change (split_char NLc (entries_lines entries)) with (file_lines (entries_lines entries)).
   rewrite (split_entries entries H). apply in_or_app. left. apply in_map. exact Hin.
 Qed.
 
-(* when it does not, the first sampled input is glued to the last line of the base file *)
-Lemma input_file_glued :
-  exists base entries e, In e entries /\ ~ In (entry_line e) (file_lines (input_file base entries))
-    /\ file_lines (input_file base entries) = ["Reservoir Life Cycle, 25, yearsReservoir Area, 81.5"; ""].
+(* ... and the lines of the base file are untouched (a blank line separates them when the base ends with a new line) *)
+Lemma input_file_base_lines base entries :
+  forallb (fun e => no_nl (entry_line e)) entries = true ->
+  file_lines (input_file base entries) = (file_lines base ++ map entry_line entries ++ [""])%list.
+Proof.
+  intros H. unfold input_file, file_lines. rewrite split_char_app_sep.
+  change (split_char NLc (entries_lines entries)) with (file_lines (entries_lines entries)).
+  rewrite (split_entries entries H). reflexivity.
+Qed.
+
+(* code before db0b708: the same holds only when the base file ends with a new line ... *)
+Lemma input_file_pinned_lines b0 entries e :
+  forallb (fun e => no_nl (entry_line e)) entries = true -> In e entries ->
+  In (entry_line e) (file_lines (input_file_pinned (b0 ++ String NLc "") entries)).
+Proof.
+  intros H Hin. unfold input_file_pinned. rewrite app_assoc_s. change (String NLc "" ++ ?x) with (String NLc x).
+  apply (input_file_lines b0 entries e H Hin).
+Qed.
+
+(* ... otherwise the first sampled input is glued to the last line of the base file *)
+Lemma input_file_pinned_glued :
+  exists base entries e, In e entries /\ ~ In (entry_line e) (file_lines (input_file_pinned base entries))
+    /\ file_lines (input_file_pinned base entries) = ["Reservoir Life Cycle, 25, yearsReservoir Area, 81.5"; ""].
 Proof.
   exists "Reservoir Life Cycle, 25, years", [("Reservoir Area", "81.5")], ("Reservoir Area", "81.5").
   split; [left; reflexivity|]. split; [|vm_compute; reflexivity].
@@ -333,14 +352,15 @@ Lemma interleave_perm {A} (row : nat -> A) tasks order : Permutation tasks order
   Permutation (map row tasks) (map row order).
 Proof. apply Permutation_map. Qed.
 
-(* with mutual exclusion the file holds exactly the finished work packages, in some order *)
-Lemma mutex_file_perm sched tasks : mutex_run linit sched -> NoDup tasks ->
+(* under the lock protocol of the current code the file holds exactly the finished work packages, in some order, for
+   every interleaving without time-out (no mutual exclusion needed: C13_row_count_partial) *)
+Lemma lock_file_perm sched tasks : Forall (fun s => snd s = Step) sched -> NoDup tasks ->
   (forall t, In t tasks <-> finished (phases (lrun linit sched) t) = true) ->
   Permutation tasks (file (lrun linit sched)).
 Proof.
-  intros M ND H. destruct (lock_file_sound sched) as [NDf Hf].
+  intros F ND H. destruct (lock_file_sound true sched) as [NDf Hf]. fold (lrun linit sched) in NDf, Hf.
   apply NoDup_Permutation; [exact ND | exact NDf|]. intros t. split; intros Ht.
-  - apply (mutex_no_loss sched M). apply H. exact Ht.
+  - apply (flush_no_loss sched F). apply H. exact Ht.
   - apply H. apply Hf in Ht. rewrite Ht. reflexivity.
 Qed.
 
